@@ -141,6 +141,8 @@ def run_scene(key):
             m = trainer.fit(X, initialization=init, iterations=10)
             aff = m.predict(X)                                   # (F, K, T)
         aff_kft = np.transpose(aff, (1, 0, 2))
+        if variant == 'contiguous':
+            aff_kft = np.ascontiguousarray(aff_kft)       # a fresh C-contiguous float64 array instead of a view
         mapping = aligner.calculate_mapping(aff_kft)
         aff_pa = aligner.apply_mapping(aff_kft, mapping)        # (K, F, T)
         # global (oracle) permutation as in the example notebook
@@ -217,6 +219,7 @@ def subchecks(tier, seed):
                                 yield (K, D, F, T, model, pk, family, -40, 'plain', seed)
                                 if F == 33 and family == 'random' and (thorough or pk == 'random'):
                                     yield (K, D, F, T, model, pk, family, -40, 'eig', seed)
+                                    yield (K, D, F, T, model, pk, family, -40, 'contiguous', seed)
                                     yield (K, D, F, T, model, pk, family, -40, 'fit_predict_small', seed)
                                 if F == 33 and family == 'random' and (thorough or pk == 'random'):
                                     # much quieter sensor noise ("at least 40 dB below the sources")
